@@ -12,6 +12,10 @@ use serde::{Deserialize, Serialize};
 use std::collections::BTreeMap;
 use std::sync::atomic::{AtomicU64, Ordering as AO};
 
+/// end-to-end sub-checks: the phase-1 validators (forge of the sibling group) and pallas-txbuilder
+mod txbuilder;
+mod validator;
+
 /// why cases were discarded / what was observed outside the claim (reported as evidence notes)
 static DISCARD_UNDECODABLE: AtomicU64 = AtomicU64::new(0);
 static DISCARD_NONCANONICAL_REDEEMERS: AtomicU64 = AtomicU64::new(0);
@@ -532,10 +536,23 @@ pub fn run(s: &Session) {
         MIN/MAX. Expected hash = own Blake2b-256 over R||D||L with R,D the byte spans of the written fields (independent parse) and L the harness' own \
         encoding. Non-trivial = datum field not in the library's canonical form (untagged, indefinite, re-encoded items, strings > 64), or >= 2 languages, \
         or a negative coefficient, or datum-only. Plus the 8 language subsets x 5 vector shapes exhaustively and the five real transactions of the repo's \
-        test (reference validated against the hash in the accepted body). Distinct = distinct serialised recipe");
+        test (reference validated against the hash in the accepted body). Distinct = distinct serialised recipe. \
+        End to end (1) validator-script-integrity: Plutus recipes of the sibling group's transaction forge (Conway: PlutusV1/V2/V3 x script in the witness set / \
+        in the script_ref of a reference input x redeemers as list / map x with / without plain reference inputs, plus native-script mints, metadata, \
+        collateral return; some Babbage and Alonzo recipes): the hash the forge wrote is first recomputed from the forged bytes (cborx spans of witness-set \
+        fields 5 and 4, own view encoding of the cost model of the one language that runs, own Blake2b); the phase-1 validator must not answer ScriptIntegrityHash, \
+        also not when the cost model of a language that does not run is altered / removed in the parameters; and an accepted transaction must be rejected with each wrong hash \
+        (views of another language, an extra language, all languages, no views, datums left out, redeemers as the empty map, redeemers re-encoded list<->map, datums re-encoded \
+        indefinite, hash removed, one bit flipped - body rewritten and signed again with the harness keys) and under parameters whose cost model for the running language is \
+        altered / missing. Non-trivial = accepted base with all variants judged. (2) txbuilder-script-data-hash: StagingTransaction with 1..3 inputs, an output, optional Plutus \
+        script, 0..3 datums, 0..2 spend and 0..2 mint redeemers, language views unset / set in one call / added one by one in any order for every subset of {V1,V2,V3}; \
+        body field 11 of the built bytes must equal the formula over the witness-set fields of the built bytes, and be absent when there are neither redeemers nor datums. \
+        Non-trivial = at least one language view");
     s.assume("redeemers are generated in the library's canonical form (precondition to_vec(decoded) == written bytes, otherwise the case is discarded): the statement says 'redeemer bytes' without 'as they appeared'");
     s.assume("for a datum-only witness set with non-empty language views passed anyway, both L = a0 (ledger: no scripts run) and L = views are accepted in build_for; `ScriptData{..}.hash()` with fields set directly is checked literally");
     s.assume("language view keys are only the three known languages 0,1,2");
+    s.assume("validator-script-integrity: the forged transactions hold exactly one Plutus script, so the languages of the transaction are that one language under the ledger's reading (scripts needed) and under pallas' (scripts present)");
+    s.assume("txbuilder-script-data-hash: for a built transaction with datums but no redeemers and non-empty language views given anyway, both L = views and L = a0 are accepted (as in build-for); R is the empty map a0 there");
 
     // real transactions
     let reals: Vec<RealTx> = [
@@ -577,6 +594,50 @@ pub fn run(s: &Session) {
 
     s.forall("build-for", s.pick(100_000, 2_000_000), case, check_build_for);
     s.forall("hash-direct", s.pick(50_000, 1_000_000), case, check_hash_direct);
+    s.forall("validator-script-integrity", s.pick(12_000, 300_000), validator::vcase, validator::check);
+    s.forall("txbuilder-script-data-hash", s.pick(40_000, 800_000), txbuilder::tcase, txbuilder::check);
+
+    if !s.replaying() {
+        // validator sub-check: every cell of (where the script is) x version x redeemer form reached an accepted base, every variant was judged
+        for wher in ["witness", "reference"] {
+            for ver in 1..=3 {
+                for form in ["list", "map"] {
+                    let c = format!("v:verdict:accepted:conway:{wher}:v{ver}:{form}");
+                    s.health(s.class_count(&c) > 0, &format!("validator-script-integrity never reached {c}"));
+                }
+            }
+        }
+        for c in [
+            "v:verdict:accepted:babbage:witness:v1:list", "v:verdict:accepted:babbage:witness:v2:list", "v:verdict:accepted:babbage:reference:v2:list",
+            "v:verdict:accepted:alonzo:witness:v1:list", "v:plain-reference-inputs:some", "v:plain-reference-inputs:none",
+            "v:unused-language-cost-model-changed:still-accepted",
+        ] {
+            s.health(s.class_count(c) > 0, &format!("validator-script-integrity never reached {c}"));
+        }
+        for v in [
+            "views-of-another-language", "views-with-extra-language", "views-of-all-languages", "no-views", "datums-left-out", "redeemers-as-empty-map",
+            "redeemers-reencoded-as-list", "redeemers-reencoded-as-map", "datums-reencoded-indefinite", "hash-removed", "one-bit-flipped",
+            "parameters-cost-model-altered", "parameters-cost-model-missing",
+        ] {
+            let n = s.class_count(&format!("v:wrong-hash:conway:{v}:rejected-as-ScriptIntegrityHash")) + s.class_count(&format!("v:wrong-hash:conway:{v}:rejected-otherwise"));
+            s.health(n > 0, &format!("validator-script-integrity never judged the wrong-hash variant {v} (conway)"));
+        }
+        for era in ["babbage", "alonzo"] {
+            let n = s.class_count(&format!("v:wrong-hash:{era}:one-bit-flipped:rejected-as-ScriptIntegrityHash")) + s.class_count(&format!("v:wrong-hash:{era}:one-bit-flipped:rejected-otherwise"));
+            s.health(n > 0, &format!("validator-script-integrity never judged a wrong hash in {era}"));
+        }
+        // txbuilder sub-check: every shape x every subset (and views never set)
+        for shape in ["redeemers+datums", "redeemers-only", "datums-only", "neither"] {
+            for sub in ["unset", "{}", "{V1}", "{V2}", "{V3}", "{V1V2}", "{V1V3}", "{V2V3}", "{V1V2V3}"] {
+                let c = format!("t:{shape}:views:{sub}");
+                s.health(s.class_count(&c) > 0, &format!("txbuilder-script-data-hash never built {c}"));
+            }
+        }
+        for c in ["t:redeemer:spend", "t:redeemer:mint", "t:views-through:language_views", "t:views-through:add_language", "t:views-through:unset",
+            "t:script:none", "t:script:v1", "t:script:v2", "t:script:v3", "t:field-11:present", "t:field-11:absent"] {
+            s.health(s.class_count(c) > 0, &format!("txbuilder-script-data-hash never reached {c}"));
+        }
+    }
 
     s.note("discarded_undecodable_witness_sets", serde_json::json!(DISCARD_UNDECODABLE.load(AO::Relaxed)));
     s.note("discarded_noncanonical_redeemers", serde_json::json!(DISCARD_NONCANONICAL_REDEEMERS.load(AO::Relaxed)));
